@@ -33,6 +33,8 @@ type NamedResult struct {
 	Name      string
 	Kind      string
 	Instances int
+	LiveInstances int
+	Trivial   bool
 	Failed    []*Obligation // instances not discharged
 	Backends  map[string]int
 	TimeS     float64
@@ -103,6 +105,16 @@ func obligationScript(ob *Obligation, wantModel bool) string {
 }
 
 func discharge(obs []*Obligation, outDir string, timeoutS int, order []string, workers int) {
+	// Term.Key memoises without synchronisation: print every shared term once, sequentially,
+	// so that the workers below only read.
+	for _, ob := range obs {
+		for _, a := range ob.Assume {
+			a.Key()
+		}
+		if ob.Goal != nil {
+			ob.Goal.Key()
+		}
+	}
 	var wg sync.WaitGroup
 	ch := make(chan int)
 	for w := 0; w < workers; w++ {
@@ -118,6 +130,14 @@ func discharge(obs []*Obligation, outDir string, timeoutS int, order []string, w
 				script := obligationScript(ob, ob.Kind != "cover" && ob.Kind != "reach")
 				file := filepath.Join(outDir, fmt.Sprintf("%04d-%s", i, fileSafe(ob.Name)))
 				r := Solve(script, file, timeoutS, order)
+				if r.Status == "unsat" && liveKinds[ob.Kind] {
+					// vacuity guard per obligation: are the path's assumptions satisfiable at all?
+					probe := &Obligation{Name: ob.Name, Kind: "reach", Assume: ob.Assume, Goal: False}
+					lr := Solve(obligationScript(probe, false), file+".live", 2, order[:1])
+					ob.Live = lr.Status != "unsat"
+				} else {
+					ob.Live = true
+				}
 				if ob.Kind == "cover" || ob.Kind == "reach" {
 					// expected: satisfiable
 					switch r.Status {
@@ -155,6 +175,10 @@ func fileSafe(s string) string {
 	}
 	return out
 }
+
+// liveKinds: contract-level obligations for which at least one path instance must have
+// satisfiable assumptions (a clause proved only on infeasible paths is vacuous).
+var liveKinds = map[string]bool{"ensures": true, "iter": true}
 
 type KnownFinding struct {
 	Prop, Obligation, Class, Text string
@@ -324,6 +348,12 @@ func RunCheck(opt Options) int {
 			names = append(names, ob.Name)
 		}
 		nr.Instances++
+		if ob.Live {
+			nr.LiveInstances++
+		}
+		if ob.Goal.IsTrue() {
+			nr.Trivial = true
+		}
 		nr.TimeS += ob.Result.TimeS
 		solverTime += ob.Result.TimeS
 		if ob.Result.Status == "unsat" {
@@ -354,6 +384,7 @@ func RunCheck(opt Options) int {
 	}
 
 	violations := 0
+	var vacuous []string
 	var knownHit []string
 	replayDir := filepath.Join(opt.VerifDir, "out", "replays", opt.Prop)
 	os.MkdirAll(replayDir, 0o755)
@@ -400,6 +431,14 @@ func RunCheck(opt Options) int {
 		if nr.Kind == "reach" && len(nr.Failed) < nr.Instances {
 			// one feasible return path is enough
 			nr.Failed = nil
+		}
+		if liveKinds[nr.Kind] && len(nr.Failed) == 0 && nr.LiveInstances == 0 && nr.Instances > 0 && !nr.Trivial {
+			violations++
+			vacuous = append(vacuous, n)
+			path := filepath.Join(replayDir, fileSafe(n)+".vacuous.txt")
+			os.WriteFile(path, []byte("property: "+opt.Prop+"\nobligation: "+n+"\nreason: every path instance of this clause has unsatisfiable assumptions: the clause is proved vacuously (an inconsistent contract or an infeasible path)\n"), 0o644)
+			fmt.Printf("VIOLATION property=%s replay=%s no-failing-input-found\n", opt.Prop, path)
+			continue
 		}
 		if len(nr.Failed) == 0 {
 			discharged++
@@ -501,10 +540,24 @@ func RunCheck(opt Options) int {
 		"havoc_all_calls":          havocAll,
 		"known_findings":           knownHit,
 		"failed":                   failedNames,
+		"vacuous":                  vacuous,
 		"samples":                  samples,
 		"ledger_obligations":       len(ledger),
 	}
-	ev.Assumptions = tb
+	as := append([]string{}, tb...)
+	for _, x := range uniq(ext) {
+		as = append(as, "assumed contract of external function (ext.go): "+x)
+	}
+	for _, x := range uniq(trusted) {
+		as = append(as, "trusted (unverified) contract: "+x)
+	}
+	for _, x := range uniq(assumed) {
+		as = append(as, "assumed clause (`assumes`): "+x)
+	}
+	for _, x := range uniq(unsup) {
+		as = append(as, "out of reach, abstracted: "+x)
+	}
+	ev.Assumptions = as
 	evPath := filepath.Join(opt.VerifDir, "evidence", opt.Prop+".json")
 	os.MkdirAll(filepath.Dir(evPath), 0o755)
 	data, _ := json.MarshalIndent(ev, "", " ")
